@@ -207,6 +207,19 @@ func AddrPath(v ssa.Value) string {
 		return AddrPath(x.X) + "." + n
 	case *ssa.UnOp:
 		if x.Op == token.MUL {
+			// a parameter spilled to memory because a closure captures it
+			if al, ok := x.X.(*ssa.Alloc); ok {
+				if r := ResolveLoad(x); r != nil {
+					return AddrPath(r)
+				}
+				for _, ref := range *al.Referrers() {
+					if st, ok := ref.(*ssa.Store); ok && st.Addr == ssa.Value(al) {
+						if par, ok := st.Val.(*ssa.Parameter); ok {
+							return AddrPath(par)
+						}
+					}
+				}
+			}
 			return AddrPath(x.X)
 		}
 	case *ssa.Parameter:
